@@ -690,8 +690,10 @@ theorem C13_pattern_pos {σ ρ} (r : ScanReader σ ρ) (pat : List Char) (s : It
     · subst h1; simp [patternOps, ih]
     · by_cases h2 : c = 'D'
       · subst h2; simp [patternOps, ih]
-      · have : patternOps (c :: cs) = .incr :: patternOps cs := patternOps.eq_4 c cs (fun h => h1 h) (fun h => h2 h)
-        rw [this]; simp [ih]
+      · by_cases h3 : c = 'p'
+        · subst h3; simp [patternOps, ih]
+        · have : patternOps (c :: cs) = .incr :: patternOps cs := patternOps.eq_5 c cs (fun h => h1 h) (fun h => h2 h) (fun h => h3 h)
+          rw [this]; simp [ih]
 
 example : ∃ x ∈ itRun (pnmTextScanReader 255 3) (ItState.init [] [49, 32, 50, 32, 51, 10, 52, 32, 53, 32, 54, 10]) [.incr, .deref], x.1 < 2 := by decide
 
@@ -716,6 +718,67 @@ theorem C13_skip_rows_read_image_seeking {α} (file : Bytes) (off : Nat → Nat)
         (fun _ _ _ => ⟨rfl, trivial⟩) (fun _ _ _ => trivial) p0 trivial, List.mem_map] at hx
   obtain ⟨p, _, rfl⟩ := hx
   exact C13_scanline_rowwise file off len rowDec w h p hlt
+
+/-- the stream state a plain walk (every row dereferenced once) has before row `k` -/
+def walkState {σ ρ} (r : ScanReader σ ρ) (s0 : σ) : Nat → σ
+  | 0 => s0
+  | k + 1 => (r.read k (walkState r s0 k)).2
+
+/-- readers whose `skip` is implemented by reading the row and discarding it (png, jpeg, tiff scanline readers: `skip` calls the same
+    read function) or that otherwise leave the stream where `read` leaves it: ANY `*it` / `++it` sequence hands out, at position `p`, the row
+    a plain walk hands out at `p` -/
+theorem C13_skip_pattern_sequential {σ ρ} (r : ScanReader σ ρ) (hskip : ∀ pos s, r.skip pos s = (r.read pos s).2)
+    (s0 : σ) (b0 : ρ) (ops : List ItOp) :
+    itRun r (ItState.init b0 s0) ops = (derefPositions 0 ops).map (fun p => (p, (r.read p (walkState r s0 p)).1)) := by
+  apply C13_skip_pattern_generic r _ (fun pos s => s = walkState r s0 pos)
+  · intro pos s hs; subst hs; exact ⟨rfl, rfl⟩
+  · intro pos s hs; subst hs; rw [hskip]; rfl
+  · rfl
+
+/-- ... and the plain walk itself is the pattern d d d …: its rows are these rows in order -/
+theorem C13_plain_walk {σ ρ} (r : ScanReader σ ρ) (hskip : ∀ pos s, r.skip pos s = (r.read pos s).2) (s0 : σ) (b0 : ρ) (n : Nat) :
+    itRun r (ItState.init b0 s0) (patternOps (List.replicate n 'd')) = (List.range n).map (fun p => (p, (r.read p (walkState r s0 p)).1)) := by
+  rw [C13_skip_pattern_sequential r hskip]
+  congr 1
+  have : ∀ k, derefPositions k (patternOps (List.replicate n 'd')) = (List.range n).map (· + k) := by
+    induction n with
+    | zero => intro k; rfl
+    | succ n ih =>
+      intro k
+      simp only [List.replicate_succ, patternOps, derefPositions, ih, List.range_succ_eq_map, List.map_cons, List.map_map]
+      simp only [Nat.zero_add, List.cons.injEq, true_and]
+      apply List.map_congr_left
+      intro a _
+      simp only [Function.comp]
+      omega
+  rw [this 0]; simp
+
+example : itRun (pnmBinScanReader 1) (ItState.init [] [7, 8, 9]) (patternOps ['d', 'd', 'd']) = [(0, [7]), (1, [8]), (2, [9])] := by decide
+
+/-- PNM mono (P4), any per-byte manipulation `rowDec` (the reader's and the scanline reader's negate + mirror): under ANY `*it` / `++it`
+    sequence the raw scanline handed out at a position inside the image decodes to read_image's row at that position -/
+theorem C13_skip_rows_read_image_pnm_mono (rowDec : Bytes → List Bool) (file data : Bytes) (info : PnmInfo) (img : Img Bool)
+    (hh : pnmReadHeader file = some (info, data)) (hfull : decodePnmMonoWith rowDec file Settings.full = some img) (ops : List ItOp) :
+    ∀ x ∈ itRun (pnmBinScanReader (pnmScanline 4 info.width)) (ItState.init [] data) ops, x.1 < info.height →
+      img.rows[x.1]? = some (sliceRow 0 info.width (rowDec (padTo (pnmScanline 4 info.width) x.2))) := by
+  intro x hx hlt
+  unfold decodePnmMonoWith at hfull
+  rw [hh] at hfull
+  simp only at hfull
+  split at hfull
+  · rename_i ht
+    injection hfull with hfull
+    subst hfull
+    have := C13_skip_pattern_pnm_bin data info ops
+    rw [ht] at this
+    rw [this, List.mem_map] at hx
+    obtain ⟨p, _, rfl⟩ := hx
+    rw [C13_scanline_rowwise _ _ _ _ _ _ p hlt]
+    simp only [pnmScanRow, ht]
+  · cases hfull
+
+example : (pnmReadHeader [80, 52, 10, 49, 32, 50, 10, 0x80, 0x00]).map (fun p => (p.1.width, p.1.height, p.1.type, p.2)) = some (1, 2, 4, [0x80, 0x00])
+    ∧ (decodePnmMonoWith pnmMonoRowDecFixed [80, 52, 10, 49, 32, 50, 10, 0x80, 0x00] Settings.full).map (·.rows) = some [[false], [true]] := by decide
 
 /-! ### read_image_info reports the dimensions of the image read_image produces -/
 
